@@ -100,18 +100,20 @@ class HRNP(BytesInterface):
         return hrnp
 
     def as_bytes(self, endian: Literal["big", "little"] = "big") -> bytes:
-        return (
+        # the payload is serialised exactly once: length, checksum and the emitted bytes must describe the same
+        # octets even if the payload stamps itself with the current date/time when it is serialised
+        data: bytes = self.data.as_bytes() if self.has_data() else b""
+        head: bytes = (
             self.header
             + self.version
             + bytes(
                 [self.block_number, self.opcode.value, self.source, self.destination]
             )
             + self.packet_number.to_bytes(length=2, byteorder="big")
-            + len(self).to_bytes(2, byteorder="big")
-            # checksum must be calculated from data assembled here, not data passed to constructor
-            + self.verify_checksum(self.checksum)[1]
-            + (self.data.as_bytes() if self.has_data() else b"")
+            + (12 + len(data)).to_bytes(2, byteorder="big")
         )
+        # checksum must be calculated from data assembled here, not data passed to constructor
+        return head + HRNP.calculate_checksum(head + data) + data
 
     def has_data(self):
         return self.opcode == HRNPOpcodes.DATA
